@@ -370,6 +370,14 @@ func structuredMutants() []mutant {
 	frame("csize-smaller", 'C', len(good), len(gp)-10, hdr(4, "t", "0")+stx(gp)+eot)
 	frame("usize-larger", 'C', len(good)+100, len(gp), hdr(4, "t", "0")+stx(gp)+eot)
 	frame("usize-zero", 'C', 0, len(gp), hdr(4, "t", "0")+stx(gp)+eot)
+	// announced sizes that do not match an otherwise completely conforming transfer (the proposal's
+	// size fields are remote-controlled numbers too: nothing may be allocated from them)
+	for _, us := range []string{"0", "1", "-1", "-2147483648", "65536", "16777216", "134217728", "2147483647", "2147483648", "4294967296", "99999999999", "9223372036854775807", "99999999999999999999"} {
+		line := fmt.Sprintf("FC EM CARRIER %s %d 0", us, len(gp))
+		turn("announced-size", "usize="+us, block(line)+hdr(4, "t", "0")+stx(gp)+eot+"FF\r")
+		line = fmt.Sprintf("FC EM CARRIER %d %s 0", len(good), us)
+		turn("announced-size", "csize="+us, block(line)+hdr(4, "t", "0")+stx(gp)+eot+"FF\r")
+	}
 	frame("two-frames-for-one", 'C', len(good), len(gp), hdr(4, "t", "0")+stx(gp)+eot+hdr(4, "t", "0")+stx(gp)+eot)
 	whole := hdr(4, "t", "0") + stx(gp) + eot
 	for cut := 0; cut < len(whole); cut += 1 + cut/8 {
